@@ -413,6 +413,8 @@ class Engine:
         self.pos += 1
         if i < len(self.trail):
             dec = self.trail[i][0]
+            if len(self.trail[i]) > 3:
+                self.path_optimistic += 1
             if self.trail[i][2] is not None and i == len(self.trail) - 1:
                 self.model = self.trail[i][2]
             elif self.model is not None and self._model_says(cond if dec else z3.Not(cond)) is not True:
@@ -438,8 +440,20 @@ class Engine:
                 self.stats["model_hits"] += 1
                 rf, mf = "sat", self.model
                 rt, mt = self._check(cond)
-            if "unknown" in (rt, rf):
-                raise Unsupported(f"solver unknown at branch {str(cond)[:300]}")
+            opt = "unknown" in (rt, rf)
+            if opt:
+                # A comparison that neither solver decides (in practice: sorting / dict lookups over several symbolic
+                # URI prefixes): follow every side that is not refuted, at most 8 times per path.  Exploring a possibly
+                # infeasible path over-approximates the behaviours, so a HOLDS verdict stays sound; a counterexample
+                # still needs a model that replays on the real code.
+                self.path_optimistic += 1
+                if self.path_optimistic > 8:
+                    raise Unsupported(f"too many undecided branches on one path, last {str(cond)[:300]}")
+                self.stats["optimistic_forks"] = self.stats.get("optimistic_forks", 0) + 1
+                if rt == "unknown":
+                    rt, mt = "sat", None
+                if rf == "unknown":
+                    rf, mf = "sat", None
             if rt == "sat" and rf == "sat":
                 dec = True
                 self.trail.append([True, True, mf])
@@ -454,6 +468,8 @@ class Engine:
                 self.model = mf
             else:
                 raise EngineAbort()
+            if opt:
+                self.trail[-1].append("undecided")
         self.pc.append(cond if dec else z3.Not(cond))
         self._record(cond, dec)
         return dec
@@ -612,6 +628,7 @@ class Engine:
         self.trail = [[d, False, None] for d in (prefix or [])]
         nprefix = len(self.trail)
         self.frontier_depth = frontier_depth
+        self.path_optimistic = 0
         self.known_seen = set()
         self.inputs = {}
         self._cex_seen = 0
@@ -624,6 +641,7 @@ class Engine:
             self.memo = {}
             self.subst = []
             self.pos = 0
+            self.path_optimistic = 0
             self.model = None
             try:
                 out = fn(self)
@@ -653,7 +671,7 @@ class Engine:
                         self.frontier.append([t[0] for t in self.trail[:i]] + [not self.trail[i][0]])
                 self.stats["handed_back"] = len(self.frontier)
                 break
-            self.trail[-1] = [not self.trail[-1][0], False, self.trail[-1][2]]
+            self.trail[-1] = [not self.trail[-1][0], False, self.trail[-1][2]] + self.trail[-1][3:]
             if self.stats["paths"] >= self.max_paths:
                 raise Budget("path budget exhausted")
             if self.deadline is not None and time.time() > self.deadline:
@@ -1023,6 +1041,7 @@ class SymAffix(SymBool):
             if (z3.is_const(v) and v.decl().kind() == z3.Z3_OP_UNINTERPRETED
                     and (not z3.is_string_value(pn) or 0 < len(z3str_to_py(pn)) <= 2)
                     and not any(x.eq(v) for x in flatten(pn))):
+                eng.keep.extend([v, pn])
                 key = ("affix", v.get_id(), pn.get_id(), self.front)
                 if key not in eng.memo:
                     rest = eng.fresh_str("ar")
@@ -1353,6 +1372,7 @@ class SymStr:
                     return cat(before + [z3.StringVal(h)]), cat([z3.StringVal(t)] + after)
                 if not eng.branch(z3.Contains(pi, sep_e)):
                     continue
+                eng.keep.extend([pi, sep_e])
                 key = ("r" if right else "p", pi.get_id(), sep_e.get_id())
                 if key not in eng.memo:
                     x, y = eng.fresh_str("h"), eng.fresh_str("t")
@@ -1402,6 +1422,7 @@ class SymStr:
                 return before, after
         elif not eng.branch(z3.Contains(e, sep_e)):
             return None
+        eng.keep.extend([e, sep_e])
         key = ("r" if right else "p", e.get_id(), sep_e.get_id())
         if key not in eng.memo:
             x, y = eng.fresh_str("h"), eng.fresh_str("t")
@@ -1599,6 +1620,7 @@ class SymStripped(SymStr):
         if self._e is None:
             eng = E()
             b = eng.norm(self.base)
+            eng.keep.extend([b])
             key = ("strip", b.get_id(), self.chars, self.left, self.right)
             if key not in eng.memo:
                 eng.memo[key] = self._materialise(eng, b)
@@ -1635,6 +1657,7 @@ class SymStripped(SymStr):
                 if eng.branch(z3.InRe(p, edge)):
                     return parts
                 # p = (class chars)* ++ core, core beginning (ending) outside the class
+                eng.keep.extend([p])
                 k = ("peel", p.get_id(), self.chars, from_left)
                 if k not in eng.memo:
                     w, core = eng.fresh_str("sw"), eng.fresh_str("sc")
